@@ -93,22 +93,24 @@ theorem head_is_get_headers (lm : Option Str) (ct : Str) (body : Bytes) :
 
 For every file tree (seen through any `st`), every configuration and every selector. -/
 
-/-- the handler chain hands a protocol a document exactly when the file handler answers the
-    selector, and then the bytes are the file's and the entry is the file's entry -/
+/-- the handler chain hands a protocol a document exactly when a file handler (the plain one, or
+    the HTML-title one) answers the selector, and then the bytes are the file's and the entry is
+    the file's entry -/
 theorem handled_document (c : ServeCfg) (st : StatFn) (sel : Str) (e : Entry) (d : Bytes)
     (h : handled c st sel = .document e d) :
-    dispatch c.site st sel = .file ∧ st sel = some (.file d) ∧ entryAt c.site st sel = some e := by
+    (dispatch c.site st sel = .file ∨ dispatch c.site st sel = .htmlFile) ∧ st sel = some (.file d) ∧
+    entryAt c.site st sel = some e := by
   unfold handled at h
   have menuCase : ∀ (x : Option Entry) (y : Option (List Entry)),
       (match x, y with
        | some self, some es => Handled.menu self es
        | _, _ => Handled.crash) ≠ Handled.document e d := by
     intro x y; cases x <;> cases y <;> simp
-  cases hd : dispatch c.site st sel with
-  | notFound => rw [hd] at h; cases h
-  | file =>
-    rw [hd] at h
-    simp only at h
+  have fileCase : (match st sel, entryAt c.site st sel with
+       | some (.file d), some e => Handled.document e d
+       | _, _ => Handled.crash) = Handled.document e d →
+      st sel = some (.file d) ∧ entryAt c.site st sel = some e := by
+    intro h
     cases hst : st sel with
     | none => simp [hst] at h
     | some n =>
@@ -116,22 +118,43 @@ theorem handled_document (c : ServeCfg) (st : StatFn) (sel : Str) (e : Entry) (d
       | file d' =>
         cases he : entryAt c.site st sel with
         | none => simp [hst, he] at h
-        | some e' => simp only [hst, he, Handled.document.injEq] at h; exact ⟨rfl, by rw [h.2], by rw [h.1]⟩
+        | some e' => simp only [hst, he, Handled.document.injEq] at h; exact ⟨by rw [h.2], by rw [h.1]⟩
       | dir k => simp [hst] at h
       | other => simp [hst] at h
+  cases hd : dispatch c.site st sel with
+  | notFound => rw [hd] at h; cases h
+  | file => rw [hd] at h; exact ⟨Or.inl rfl, fileCase h⟩
+  | htmlFile => rw [hd] at h; exact ⟨Or.inr rfl, fileCase h⟩
+  | url =>
+    rw [hd] at h
+    simp only at h
+    cases he : entryAt c.site st sel <;> simp [he] at h
   | dir => rw [hd] at h; exact absurd h (menuCase _ _)
   | gophermapDir => rw [hd] at h; exact absurd h (menuCase _ _)
   | gophermapFile => rw [hd] at h; exact absurd h (menuCase _ _)
 
-/-- the entry of a file served by the file handler carries the file's length -/
+/-- the entry of a file served by a file handler carries the file's length -/
 theorem file_entry_size (c : SiteCfg) (st : StatFn) (sel : Str) (d : Bytes) (e : Entry)
-    (hd : dispatch c st sel = .file) (hst : st sel = some (.file d)) (he : entryAt c st sel = some e) :
-    e.size = some d.length := by
+    (hd : dispatch c st sel = .file ∨ dispatch c st sel = .htmlFile) (hst : st sel = some (.file d))
+    (he : entryAt c st sel = some e) : e.size = some d.length := by
   unfold entryAt popAt at he
-  simp only [hst, hd, Option.map_some, Option.some.injEq] at he
-  have hne : (Handler.file = Handler.gophermapFile) = False := by simp
-  simp only [hne, if_false] at he
-  rw [← he, populateWith_file_size _ _ _ _ rfl rfl rfl rfl (by simp)]
+  rcases hd with hd | hd
+  · simp only [hst, hd, Option.map_some, Option.some.injEq] at he
+    have h1 : (Handler.file = Handler.gophermapFile) = False := by simp
+    have h2 : (Handler.file = Handler.url) = False := by simp
+    have h3 : (Handler.file = Handler.htmlFile) = False := by simp
+    simp only [h1, h2, h3, if_false] at he
+    rw [← Option.some.inj he, populateWith_file_size _ _ _ _ rfl rfl rfl rfl (by simp)]
+  · simp only [hst, hd, Option.map_some, Option.some.injEq] at he
+    have h1 : (Handler.htmlFile = Handler.gophermapFile) = False := by simp
+    have h2 : (Handler.htmlFile = Handler.url) = False := by simp
+    simp only [h1, h2, if_false, if_true] at he
+    have key : (populateWith c.eaexts c.defaultMime
+        { stat := { kind := .file, size := d.length, mtime := c.mtime, ctime := c.mtime }, guess := c.guess sel,
+          gtype := c.typeOf (mimeOf c sel), sidecars := sidecarsAt c st sel false } { selector := sel }).size = some d.length :=
+      populateWith_file_size _ _ _ _ rfl rfl rfl rfl (by simp)
+    rw [← Option.some.inj he]
+    split <;> simp [key]
 
 /-- **Every protocol delivers the file's bytes, and nothing after them.**  When the handler chain
     answers a selector with a document, the response of each protocol is its header text
@@ -185,6 +208,9 @@ theorem head_end_to_end (c : ServeCfg) (st : StatFn) (rq : Parsed) (ps qs : List
         simp [respondParsed, hc1', hc2', Wire.ofProto, hh] at h h2
         rw [← h, ← h2]; simp [flattenPieces, Piece.raw]
       | crash => simp [respondParsed, hc1', hc2', Wire.ofProto, hh] at h
+      | page e t =>
+        simp [respondParsed, hc1', hc2', Wire.ofProto, hh] at h h2
+        rw [← h, ← h2]; simp [flattenPieces, Piece.raw]
       | menu self es =>
         by_cases hpt : c.pagetopper = true
         · simp [respondParsed, hc1', hc2', Wire.ofProto, hh, hpt] at h
